@@ -35,7 +35,7 @@ def run(chk, tier):
                 'other payload field on at least one path; FnActualCall renders the path then all argument renderings forward with `?` for '
                 'None; CallPatternDebug renders pattern text + file:line or the index; error constructors on the call path take the pattern '
                 'index of the pattern they are about. The generated debug_inputs / matching! diagnostics are validated by the XPAND engine.')
-    for cfg in configs(tier, thorough=('std', 'nostd-spin')):
+    for cfg in configs(tier, thorough=('std', 'mocks', 'nostd-spin', 'nostd')):
         F = load(chk, cfg)
         display_mockerror(chk, F, 'R19.1', cfg)
         display_call(chk, F, 'R19.2', cfg)
